@@ -106,7 +106,7 @@ Section Pool.
         let new_addrs := (if genesis then [validator] else []) ++ yielding_addrs kept in
         let rt := reward_tx genesis ts reward in
         match add_block c ts (Some (kept ++ [rt])) new_addrs with
-        | Err e => (mkNode c (match n_pool n with None => None | Some _ => Some shuffled end), Refused e)
+        | Err e => (n, Refused e)   (* the shuffle and the removals happened on a copy *)
         | Ok c' => (mkNode c' None, Produced dropped)
         end
       end.
